@@ -634,3 +634,54 @@ def is_spawn(n):
     return (isinstance(n, ast.Call) and isinstance(n.func, ast.Attribute)
             and n.func.attr == 'process' and len(n.args) == 1
             and isinstance(n.args[0], ast.Call))
+
+
+
+def _terminates(block):
+    if not block:
+        return False
+    t = block[-1]
+    if isinstance(t, (ast.Continue, ast.Break, ast.Return, ast.Raise)):
+        return True
+    return isinstance(t, ast.If) and _terminates(t.body) and _terminates(t.orelse)
+
+
+def guard_stack(root, target):
+    """Control context of `target` (a statement, or the value of an expression statement) inside
+    function node `root`: [('for', node) | ('while', node) | ('if', test, polarity)], outermost
+    first.  Guard clauses count: a statement after `if C: ...; continue` (break / return / raise)
+    in the same block runs only under not C."""
+    found = {}
+
+    def block(stmts, stack):
+        extra = []
+        for st in stmts:
+            cur = stack + extra
+            if st is target or (isinstance(st, ast.Expr) and st.value is target) or (
+                    isinstance(st, (ast.Assign, ast.AugAssign, ast.Return)) and getattr(st, 'value', None) is target):
+                found['ns'] = cur
+                return True
+            if isinstance(st, ast.If):
+                if block(st.body, cur + [('if', st.test, True)]) or block(st.orelse, cur + [('if', st.test, False)]):
+                    return True
+                bt, ot = _terminates(st.body), _terminates(st.orelse)
+                if bt and not ot:
+                    extra.append(('if', st.test, False))
+                elif ot and not bt:
+                    extra.append(('if', st.test, True))
+            elif isinstance(st, (ast.For, ast.AsyncFor)):
+                if block(st.body, cur + [('for', st)]) or block(st.orelse, cur):
+                    return True
+            elif isinstance(st, ast.While):
+                if block(st.body, cur + [('while', st)]) or block(st.orelse, cur):
+                    return True
+            elif isinstance(st, (ast.With, ast.AsyncWith)):
+                if block(st.body, cur):
+                    return True
+            elif isinstance(st, ast.Try):
+                for b in [st.body, st.orelse, st.finalbody] + [h.body for h in st.handlers]:
+                    if block(b, cur):
+                        return True
+        return False
+    block(root.body, [])
+    return found.get('ns')
